@@ -106,6 +106,29 @@ def check(an, rep, tier):
                             'ok' if returned and not raised else 'violation',
                             '' if returned else 'a valid %s=%d (d=%d) is '
                             'rejected' % (pname, val, d))
+        # a valid pivot / mode handed over as a NumPy integer (a loop variable
+        # of np.arange, a result of np.argmax) is a valid pivot
+        from ..values import INT as _INT
+        from .. import interp as _interp2
+        for q, pname, val in (('transformation.orthogonalize', 'k', d - 1),
+                              ('transformation.orthogonalize', 'k', 0),
+                              ('transformation.orthogonalize_left', 'i', 0),
+                              ('transformation.orthogonalize_right', 'i',
+                               d - 1)):
+            kv = _INT(val)
+            kv.note = 'npint'
+            a3 = specs.build_args({'Y': 'tt'}, d)
+            a3[pname] = kv
+            I3 = _interp2.Interp(prog, {
+                'split': dict(specs.DEFAULT_SPLIT),
+                'summary': dict(specs.DEFAULT_SUMMARY)})
+            I3.run_function(prog.func(q), a3)
+            from .common import dom3
+            st3, d3 = dom3(I3.raises, I3.entry_returns, False)
+            rep.add('P-domain', q, '%s=np.int64(%d) at d=%d is accepted'
+                    % (pname, val, d), st3,
+                    '' if st3 == 'ok' else 'a valid %s given as a NumPy '
+                    'integer is %s' % (pname, d3))
         # A-inplace
         for q, i0 in (('transformation.orthogonalize_left', 0),
                       ('transformation.orthogonalize_right', d - 1)):
@@ -177,7 +200,7 @@ def check(an, rep, tier):
     _RPZ.check_none_vs_zero(prog, rep, modules={'transformation'})
     rep.floor('O-producer', 5, 'pivot typestates')
     rep.floor('S-ret', 5, 'results')
-    rep.floor('P-domain', 14, 'domain checks')
+    rep.floor('P-domain', 20, 'domain checks')
     rep.floor('A-inplace', 6, 'in-place footprints')
     rep.floor('U-ledger', 5, 'stab ledgers')
     rep.floor('S-matmul', 2, 'R pushed into the neighbour')
